@@ -408,9 +408,13 @@ def plain_op(v: int, multiline: bool = False) -> list:
     elif k == 5:
         ps = [["lang", [["english", _s(f"hello {v}", multiline)], ["german", _s(f"hallo {v}", False)]]]]
     elif k == 6:
-        ps = [["pos", f"m{v}", 2 * (v % 2), 2 * ((v // 2) % 2), v, v + 1]]
+        # coordinates around the values the readers use as "not set yet" (-1) and the half-tile cases of negative tiles
+        xs = (v, -1, 0, -2, 1, -1)
+        ys = (v + 1, v, -1, -1, -3, 0)
+        ps = [["pos", f"m{v}", 2 * (v % 2), 2 * ((v // 2) % 2), xs[(v // 8) % 6], ys[(v // 8) % 6]]]
     else:
-        ps = [-v, ["str", _s(f"two {v}", multiline)], ["const", f"$VAR_{v}"], ["pos", f"n{v}", 0, 2, 3, 4], ["fixed", "-0.25"]]
+        ps = [-v, ["str", _s(f"two {v}", multiline)], ["const", f"$VAR_{v}"], ["pos", f"n{v}", 0, 2, 3 if v % 16 else -1, 4], ["fixed", "-0.25"],
+              ["lang", [["english", f"second {v}"]]], ["lang", [["english", f"third {v}"], ["french", "trois"]]]]
     return [f"op_{v}", ps, None]
 
 
